@@ -279,6 +279,10 @@ func c04Corpus(e *env) []*c04Unit {
 	add(mk("name-collision", "", "{let $x1: 'A' /}{let $a: 2 /}{let $b: 3 /}{let $c: 4 /}{let $d: 5 /}{let $e: 6 /}{let $f: 7 /}{let $g: 8 /}{let $h: 9 /}{let $i: 10 /}{let $x: 'B' /}{$a}{$b}{$c}{$d}{$e}{$f}{$g}{$h}{$i}{$x1}{$x}", data.Map{}))
 	add(mk("scoping-param-shadow", " * @param x\n", "{let $y: $x + 1 /}{let $x: $y + 1 /}{$x}{$y}", data.Map{"x": data.Int(1)}))
 	add(mk("switch", " * @param x\n", "{switch $x}{case 1, 2}a{case 3}b{default}c{/switch}", data.Map{"x": data.Int(2)}))
+	add(mk("switch-default-first", " * @param x\n", "{switch $x}{default}A{case 1}B{/switch}", data.Map{"x": data.Int(1)}))
+	add(mk("switch-default-first-nohit", " * @param x\n", "{switch $x}{default}A{case 1}B{/switch}", data.Map{"x": data.Int(2)}))
+	add(mk("switch-two-defaults", " * @param x\n", "{switch $x}{case 1}B{default}A{default}C{/switch}", data.Map{"x": data.Int(2)}))
+	add(mk("switch-dup-case", " * @param x\n", "{switch $x}{case 1}A{case 1}B{/switch}", data.Map{"x": data.Int(1)}))
 	add(mk("css", " * @param s\n", "{css foo}{css $s, bar}", data.Map{"s": data.String("base")}))
 	return out
 }
